@@ -142,11 +142,29 @@ fn calibrate() -> (BTreeMap<String, String>, BuiltinTable) {
             defaults.insert(probe.name.to_string(), v);
         }
         for b in BUILTINS {
-            let mut q = p.clone();
-            q.cli_features = Some(vec![b.to_string()]);
-            if let (_, Some(v), None) = observe(&q, 1, 999_999) {
-                if Some(&v) != defaults.get(probe.name) {
-                    table.insert((probe.name.to_string(), b.to_string()), v);
+            // see the E1 part: a lower-priority custom feature carries a marker value
+            let (m1, m2) = calibration_markers(probe);
+            for colors in [false, true] {
+                if colors && !reads_git_colors(probe.name) {
+                    continue;
+                }
+                let mut shown: Vec<Option<String>> = Vec::new();
+                for m in [&m1, &m2] {
+                    let mut q = Placement::default();
+                    q.probe = probe.name.to_string();
+                    q.custom.insert("fz".into(), Section { value: Some(m.clone()), ..Default::default() });
+                    q.cli_features = Some(vec!["fz".to_string(), b.to_string()]);
+                    q.git_colors = colors;
+                    shown.push(match observe(&q, 1, 999_999) {
+                        (_, Some(v), None) => Some(v),
+                        _ => None,
+                    });
+                }
+                let quoted = |m: &str, v: &str| v == m || v == format!("'{}'", m);
+                if let (Some(v1), Some(v2)) = (&shown[0], &shown[1]) {
+                    if !(quoted(&m1, v1) && quoted(&m2, v2)) {
+                        table.insert((probe.name.to_string(), if colors { format!("{}+git-colors", b) } else { b.to_string() }), v1.clone());
+                    }
                 }
             }
         }
